@@ -37,7 +37,7 @@ class C02(core.Prop):
     ASSUMPTIONS = ['mode names: every base-node name and every definition name is a symbolic alnum character; each base name equals at '
                    'least one definition name (undefined names: C11/C20); with repeated definition names the first definition is the one meant',
                    'mode mol: fragmentation cases of C01 with symbolic descriptor kinds/labels']
-    OUTSIDE = ['more than one resolution step (C06)', 'virtual nodes (C11)', 'shared atoms (C10)']
+    OUTSIDE = ['more than one resolution step (C06)', 'virtual nodes (C11)', 'the copy-of-template clause for coarse nodes with shared atoms (C10)']
     BOUNDS = {
         'quick': 'names: base graphs <= 3 nodes (chain, branch, ring, |2) x 1-2 definitions from a library of %d atomistic / %d coarse fragments; '
                  'mol: C01 quick cases (first rendering)' % (len(FRAGS_AA), len(FRAGS_CG)),
@@ -89,6 +89,14 @@ class C02(core.Prop):
             mc = [s for s in mc if s['opts'] in (OPT_VARIANTS[0], OPT_VARIANTS[1]) and len(gm.parse_smiles(s['smiles']).atoms) <= 7]
         for s in mc:
             out.append({'mode': 'mol', 'case': s})
+        # the same cases driven through from_graph with a base graph whose node keys are not 0..n-1
+        for s in mc[::(4 if tier == 'quick' else 3)]:
+            out.append({'mode': 'mol', 'case': s, 'graph_keys': 'offset'})
+        # shared atoms: membership and member graphs as sets (copy-of-template is the subject of C10)
+        from .c10 import PROP as C10P
+        sc = [s for s in C10P.shapes(tier) if 'c' not in s['smiles']]
+        for s in sc[::(6 if tier == 'quick' else 10)]:
+            out.append({'mode': 'mol', 'case': s, 'shared': True})
         return out
 
     # ------------------------------------------------------------------
@@ -108,7 +116,24 @@ class C02(core.Prop):
 
     def execute(self, M, shape, inp):
         aa = shape.get('aa', True)
+        if shape.get('graph_keys') == 'offset':
+            def run():
+                base, frag = self._split(inp['text'])
+                g0 = M.read_cgsmiles.read_cgsmiles(base)
+                g = nx.relabel_nodes(g0, {n: 3 * n + 2 for n in g0.nodes}, copy=True)
+                meta, mol = M.resolve.MoleculeResolver.from_graph(frag, g, last_all_atom=aa).resolve()
+                return {'meta': pl.meta_data(meta), 'mol': pl.graph_data(mol)}
+            return core.guard(run)
         return core.guard(pl.run_resolver, M, inp['text'], last_all_atom=aa)
+
+    @staticmethod
+    def _split(text):
+        items = symx.SymStr.lift(text)._chs
+        depth = 0
+        for i, c in enumerate(items):
+            if isinstance(c, str) and c == '}':
+                return symx.SymStr.mk(items[:i + 1]), symx.SymStr.mk(items[i + 2:])
+        raise ValueError(text)
 
     # ------------------------------------------------------------------
     def oracle(self, shape, inp, obs):
@@ -127,7 +152,7 @@ class C02(core.Prop):
                 else:
                     member_of[n].append(k)
         cl.append(('members_are_fine_nodes', ok_members))
-        cl.append(('fragid_equals_membership', all(sorted(nodes[n].get('fragid', [])) == sorted(member_of[n]) for n in nodes)))
+        cl.append(('fragid_equals_membership', all(sorted(set(nodes[n].get('fragid', []))) == sorted(member_of[n]) for n in nodes)))
         cl.append(('cover', all(len(member_of[n]) >= 1 for n in nodes)))
         # member edges are exactly the fine edges inside the member set
         fine_edges = {frozenset((a, b)) for a, b, _o, _bd in mol['edges']}
@@ -149,15 +174,18 @@ class C02(core.Prop):
                 cnt[key] = cnt.get(key, 0) + 1
             _p, border = pl.base_graph_text(len(case['blocks']), cnt, root=case['opts'].get('root', 0) % len(case['blocks']),
                                             rev=bool(case['opts'].get('rev', 0)))
-            for k in sorted(meta['nodes']):
-                block = case['blocks'][border[k]]
+            if shape.get('shared'):
+                return cl
+            keymap = sorted(meta['nodes'])
+            for ki, k in enumerate(keymap):
+                block = case['blocks'][border[ki]]
                 tmpl = nx.Graph()
                 for a in block:
                     tmpl.add_node(a, element=spec.atoms[a]['element'], charge=spec.atoms[a]['charge'])
                 for (i, j), o in spec.bonds.items():
                     if i in block and j in block:
                         tmpl.add_edge(i, j, order=o)
-                cl.append(('fragname', band(*[nodes[n].get('fragname') == 'F%d' % border[k] for n in meta['nodes'][k]['_members']])))
+                cl.append(('fragname', band(*[nodes[n].get('fragname') == 'F%d' % border[ki] for n in meta['nodes'][k]['_members']])))
                 cl.append(('copy_of_template', self._copy_clause(meta['nodes'][k], nodes, order_of, tmpl, True)))
             return cl
         aa = shape['aa']
